@@ -1,12 +1,15 @@
 """C14 — every access path to the property graph tells the same story (DESIGN §8 C14)."""
+import concurrent.futures
 import json
 import os
+import shutil
 
 import gv
 
 PROP = "C14"
 REQ_PROPS = ["GV.Props.Props_C14"]
 REQ_RUN = ["GV.Lpg.Run"]
+BINS = ["c14"]
 
 TRUSTED = [
     "Coq 8.16.1 kernel (coqc; vm_compute used to run the model; no native_compute)",
@@ -32,17 +35,37 @@ def _own_findings():
 
 
 def _install_sharding():
-    """gv.standard_flow evaluates all Coq terms of a run through gv.coq_eval with its default shard
-    size (250 terms per coqc process).  A C14 term is a whole trace (hundreds of operations, thousands
-    of observations), so the terms are spread over 4*NCPU processes instead."""
+    """gv.standard_flow evaluates all Coq terms of a run through gv.coq_eval, which cuts the list into
+    consecutive shards of 250 terms.  A C14 term is a whole trace (up to hundreds of operations and
+    thousands of observations) and the sizes differ by a factor of 1000, so the terms are instead
+    spread over at most NCPU coqc processes balanced by size (longest-processing-time first); every
+    process pays the load time of the libraries once.  Same files, same evaluation (gv._eval_shard)."""
     orig = gv.coq_eval
     if getattr(orig, "_c14", False):
         return
 
     def coq_eval(name, requires, exprs, shard=250):
-        n = len(exprs)
-        per = max(1, min(250, -(-n // (gv.NCPU * 4)))) if n else 250
-        return orig(name, requires, exprs, shard=per)
+        if not exprs:
+            return []
+        d = os.path.join(gv.BUILD, "cases", name)
+        shutil.rmtree(d, ignore_errors=True)
+        os.makedirs(d)
+        nb = max(1, min(gv.NCPU, len(exprs)))
+        bins = [[0, []] for _ in range(nb)]
+        for i in sorted(range(len(exprs)), key=lambda i: -len(exprs[i])):
+            b = min(bins, key=lambda b: b[0])
+            b[0] += len(exprs[i]) + 2000
+            b[1].append(i)
+        jobs = [(os.path.join(d, "S%04d.v" % k), requires, [exprs[i] for i in b[1]]) for k, b in enumerate(bins) if b[1]]
+        idx = [b[1] for b in bins if b[1]]
+        out = [None] * len(exprs)
+        with concurrent.futures.ThreadPoolExecutor(max_workers=gv.NCPU) as ex:
+            for (vals, raw), job, ix in zip(ex.map(gv._eval_shard, jobs), jobs, idx):
+                if vals is None or len(vals) != len(job[2]):
+                    raise RuntimeError("coqc failed on %s:\n%s" % (job[0], (raw or "")[-3000:]))
+                for i, v in zip(ix, vals):
+                    out[i] = v
+        return out
 
     coq_eval._c14 = True
     gv.coq_eval = coq_eval
